@@ -43,3 +43,22 @@ Example C06_source_instance :
   run_rops (new_ibs 8 (mkSrc [165; 90; 255; 1; 2; 3; 4; 5; 6; 7]%N [1; 2; 1; 3; 1; 1; 1]%N None 0)) [RBits 4; RBit; RBits 11; RBits 64; RBits 1]%N =
   [Some 10; Some 0; Some 1370; Some 18374970166623929863; None]%N.
 Proof. vm_compute. reflexivity. Qed.
+
+(* ---------- a whole NONE / NONE stream: decoding does not depend on how the source delivers the bytes ---------- *)
+From KV Require Import Model.Header Model.Container Proofs.HeaderProofs Proofs.ContainerProofs.
+(* two readers with different buffer sizes, fed the same stream in different pieces (any short-read
+   schedules), parse the same header and the same blocks - here for every stream the writer model produces *)
+Theorem C06_whole_stream_source_chunking_is_invisible : forall (hash : list N -> N) (evalid tvalid : N -> bool) c,
+  cfg_ok evalid tvalid c ->
+  (h_ck c = 1%N -> forall l, (hash l < 2 ^ 32)%N) -> (h_ck c = 2%N -> forall l, (hash l < 2 ^ 64)%N) ->
+  forall blocks nframes rbuf1 sched1 rbuf2 sched2,
+  Forall (blk_ok (h_bsize c)) blocks -> (length blocks < nframes)%nat ->
+  (0 < rbuf1)%N -> (rbuf1 mod 8 = 0)%N -> (0 < rbuf2)%N -> (rbuf2 mod 8 = 0)%N ->
+  parse_stream hash evalid tvalid nframes rbuf1 sched1 (write_stream hash c blocks) =
+  parse_stream hash evalid tvalid nframes rbuf2 sched2 (write_stream hash c blocks).
+Proof.
+  intros hash evalid tvalid c Hc H32 H64 blocks nframes rbuf1 sched1 rbuf2 sched2 Hb Hf Hr1 Hr18 Hr2 Hr28.
+  rewrite (container_roundtrip hash evalid tvalid c Hc H32 H64 blocks nframes rbuf1 sched1 Hb Hf Hr1 Hr18).
+  rewrite (container_roundtrip hash evalid tvalid c Hc H32 H64 blocks nframes rbuf2 sched2 Hb Hf Hr2 Hr28). reflexivity.
+Qed.
+Print Assumptions C06_whole_stream_source_chunking_is_invisible.
